@@ -7,7 +7,7 @@
    (coq/C11/Spec_C11.v) applied to obj_of, the observed object of a model object. *)
 From Coq Require Import NArith ZArith List Bool.
 From F8 Require Import Codec.Bytes Codec.Meta Codec.Extract Codec.Decode Codec.Encode Codec.Render Codec.Example
-                       C11.Copy C11.Spec_C11 C11.Hyp C11.Examples C11.WitnessProofs
+                       C11.Copy C11.CopyOrig C11.Spec_C11 C11.Hyp C11.Examples C11.WitnessProofs
                        C11.CopyProofs C11.CountProofs C11.CloneProofs C11.MoveProofs
                        C11.Precision C11.PrecisionProofs.
 Import ListNotations.
@@ -17,8 +17,9 @@ Local Open Scope N_scope.
    satisfies clone_ok (coq/C11/Hyp.v): each part's _pos is in strictly increasing schema order
    (API-built messages; messages decoded from in-order input), every _pos entry is backed by _fields
    and a present bit and vice versa, no pass-through bytes, the constructor-owned fields 8, 9, 10 are
-   still suppressed (never encoded) and BeginString is the constructor's, the target's deep
-   constructor provides the groups; recursively for every group element, to any nesting depth.
+   still suppressed (never encoded) and BeginString is the constructor's, the target's class knows the
+   nested class of each group (the group object itself need not be pre-created); recursively for
+   every group element, to any nesting depth.
    Whenever the original encodes, the clone exists and encodes to exactly the same bytes. *)
 Theorem c11_clone_partial : forall c m md,
   find_msg (c_msgs c) (m_type m) = Some md -> clone_ok c md m = true ->
@@ -65,12 +66,17 @@ Proof. exact c11_precision_nonvacuous_lemma. Qed.
 Print Assumptions c11_precision_nonvacuous.
 
 (* "moving them leaves the target equal to the original source": move_legal of a source satisfying
-   move_ok (local_ok + fresh target as above; every present group field has its _groups entry; no
-   recursion: the elements are handed over as they are) into a fresh deep object succeeds, returns
+   move_ok (local_ok + fresh target as above; every non-empty group belongs to a present group field;
+   no recursion: the elements are handed over as they are) into a fresh deep object succeeds, returns
    the number of fields of the object itself (top_fields), the target has the same content and
    encodes like the original source; the source keeps its trait table (present bits still set), each
    of its _fields entries holds a null pointer, so does each _groups entry of a present group field,
-   and its _pos is empty (the husk has no _pos component). *)
+   and its _pos is empty (the husk has no _pos component).
+   Target shapes covered (target_ok): ANY fresh object of the class whose existing group objects are
+   empty -- deep-constructed (every group pre-created: move_legal REPLACES the group object),
+   shallow-constructed (no group object: move_legal ADDS the source's group object) and mixed (FIX44
+   header, NoHops not pre-created); the two branches of move_legal are distinct in the model
+   (map_set / map_insert on _groups) and both are covered by this theorem. *)
 Theorem c11_move_legal_partial : forall s t0, move_ok s t0 = true ->
   exists t k, move_legal false s t0 = Ok (top_fields (obj_of s), t, k) /\
     same_content (obj_of s) (obj_of t) = true /\
@@ -106,22 +112,43 @@ Theorem c11_clone_unknown_refuted :
 Proof. exact c11_clone_unknown_refuted_lemma. Qed.
 Print Assumptions c11_clone_unknown_refuted.
 
-(* move_legal reads and writes through _groups.find(fnum) without testing for end(): a decoded
-   (shallow) message that holds a group count field with value 0 has no such entry, although it
-   satisfies every hypothesis of the clone theorem. *)
-Theorem c11_move_missing_group_refuted :
+(* Two defects found by this check have been repaired in /repo and the model follows the repaired
+   code; the former refutations are now positive witnesses.
+   (1) /repo 1eb9e00: move_legal dereferenced _groups.find(fnum) == end() for a decoded message holding
+   a group count field with value 0 (no group object).  Such a message satisfies clone_ok; moving it
+   succeeds and the target encodes like the source. *)
+Theorem c11_move_zero_count_repaired :
   exists c bytes m md, decoded_nock c bytes = Some m /\ find_msg (c_msgs c) (m_type m) = Some md /\
-                       clone_ok c md m = true /\ move_msg c m = OOB site_groups_end.
-Proof. exact c11_move_missing_group_refuted_lemma. Qed.
-Print Assumptions c11_move_missing_group_refuted.
+                       clone_ok c md m = true /\ map_find 73 (mb_groups (m_body m)) = None /\
+                       exists nb nh nt t k, move_msg c m = Ok (nb, nh, nt, t, k) /\
+                                            enc_of c t = enc_of c m /\ enc_of c m <> [].
+Proof. exact c11_move_zero_count_repaired_lemma. Qed.
+Print Assumptions c11_move_zero_count_repaired.
 
-(* copy_legal calls gb1->create_group(true) on to->find_group(fnum) without a null test: "a deep
-   constructed target message is required" -- but the deep constructor of the FIX44 header does not
-   pre-create NoHops (627), so clone() of a message that encodes fine is a null dereference. *)
-Theorem c11_clone_target_group_refuted :
-  exists c m, enc_of c m <> [] /\ clone c m = OOB site_target_group.
-Proof. exact c11_clone_target_group_refuted_lemma. Qed.
-Print Assumptions c11_clone_target_group_refuted.
+(* (2) /repo 198b3ea: copy_legal dereferenced to->find_group(fnum) == nullptr when the deep constructor
+   of the target does not pre-create the group (FIX44 header, NoHops 627); it now uses find_add_group.
+   A message with a Hops element in such a header satisfies clone_ok (no group object is required in
+   the target) and its clone encodes to the original's bytes. *)
+Theorem c11_clone_missing_target_group :
+  clone_ok ex_ctx_h md_hb hb_hops = true /\
+  mb_groups (m_hdr (mk_message ex_ctx_h md_hb true)) = [] /\
+  clone_enc ex_ctx_h hb_hops = enc_of ex_ctx_h hb_hops /\ enc_of ex_ctx_h hb_hops <> [].
+Proof. exact c11_clone_missing_target_group_lemma. Qed.
+Print Assumptions c11_clone_missing_target_group.
+
+(* The same two inputs on the code as it was BEFORE the repairs (coq/C11/CopyOrig.v): the memory errors
+   this check found.  move_legal read and wrote through _groups.end(); copy_legal called
+   create_group on a null GroupBase. *)
+Theorem c11_move_missing_group_orig_refuted :
+  exists c bytes m md, decoded_nock c bytes = Some m /\ find_msg (c_msgs c) (m_type m) = Some md /\
+                       clone_ok c md m = true /\ move_msg_orig c m = OOB site_groups_end.
+Proof. exact c11_move_missing_group_orig_refuted_lemma. Qed.
+Print Assumptions c11_move_missing_group_orig_refuted.
+
+Theorem c11_clone_target_group_orig_refuted :
+  exists c m, enc_of c m <> [] /\ clone_orig c m = OOB site_target_group.
+Proof. exact c11_clone_target_group_orig_refuted_lemma. Qed.
+Print Assumptions c11_clone_target_group_orig_refuted.
 
 (* Non-vacuity: clone_ok holds of an API-built message with nested groups filled out of order and
    of a message decoded from in-order bytes; their clones encode to the originals' bytes. *)
@@ -141,3 +168,16 @@ Theorem c11_nonvacuous_parts :
   count_fields (obj_of (m_body ex_list)) = 11.
 Proof. exact c11_nonvacuous_parts_lemma. Qed.
 Print Assumptions c11_nonvacuous_parts.
+
+(* Non-vacuity of c11_move_legal_partial for a SHALLOW-constructed target: move_ok holds, the target
+   has no group object, move_legal returns the 3 top-level fields, the target holds the source's two
+   order elements under 73 (added, not replaced) and encodes like the source. *)
+Theorem c11_move_shallow_nonvacuous :
+  move_ok (m_body ex_list) (create_group ex_body false) = true /\
+  mb_groups (create_group ex_body false) = [] /\
+  exists t k, move_legal false (m_body ex_list) (create_group ex_body false) = Ok (3, t, k) /\
+              map_find 73 (mb_groups t) = map_find 73 (mb_groups (m_body ex_list)) /\
+              map_find 73 (mb_groups (m_body ex_list)) = Some [ex_order1; ex_order2] /\
+              mb_encode ex_ctx t = mb_encode ex_ctx (m_body ex_list).
+Proof. exact c11_move_shallow_nonvacuous_lemma. Qed.
+Print Assumptions c11_move_shallow_nonvacuous.
